@@ -333,11 +333,11 @@ Proof.
     destruct (conv_bytes fo y') as [b|] eqn:Eb; try discriminate.
     inversion H; subst z. exists (String.eqb a b). split; [|reflexivity].
     destruct x'; try discriminate; cbn in *; rewrite Eb; congruence.
-  - destruct (conv_int fo x) as [a|] eqn:Ea; try discriminate.
-    destruct (conv_int fo y) as [b|] eqn:Eb; try discriminate.
-    destruct x; try discriminate. destruct y; try discriminate.
-    apply vrel_not_bytes in Vx; [|discriminate]. apply vrel_not_bytes in Vy; [|discriminate].
-    subst. cbn in *. inversion Ea; inversion Eb; subst. inversion H; subst z. eauto.
+  - rewrite (number_compare_vrel _ _ _ _ CEq Vx Vy) in H.
+    destruct (number_compare fo x' y' CEq) as [b| | |] eqn:Ec; try discriminate.
+    inversion H; subst z. exists b. split; [|reflexivity].
+    destruct x'; try (cbn in Ec; destruct y'; discriminate Ec);
+      cbn [equal_values]; rewrite Ec; reflexivity.
   - destruct x; try discriminate. destruct y; try discriminate.
     apply vrel_bool in Vx. apply vrel_bool in Vy. subst. inversion H; subst z. cbn. eauto.
 Qed.
